@@ -5,6 +5,8 @@ mod parser;
 mod parser_error;
 mod syntax;
 mod text;
+#[cfg(feature = "verif")]
+pub mod verif;
 
 pub use kind::*;
 pub use lexer::{LexerConfig, LexerState, LuaLexer, LuaTokenData};
